@@ -405,7 +405,7 @@ def probe_ensemble(ctx, rng):
     else:
         others = [c for c in CLASSES if c not in ("Gaussian", "Exponential", "TPLStable")]
         pick = others[int(rng.integers(len(others)))]
-        plan = [("Gaussian", 2, 1500), ("Exponential", 2, 1500), ("Gaussian", 3, 250), (pick, int(rng.choice([2, 3])), 200)]
+        plan = [("Gaussian", 2, 1200), ("Exponential", 2, 1200), ("Gaussian", 3, 200), (pick, int(rng.choice([2, 3])), 150)]
     worst = 0.0
     for name, dim, M in plan:
         cfg = rand_cfg(rng, name, dim, mode_choices=(16, 64, 100))
